@@ -102,6 +102,12 @@ static int block_containing(const void* p) {
     return 0;
 }
 
+/* `!reuse 1`: freed blocks are handed out again, most recently freed first (as malloc does), and the caller's seed variable
+ * keeps the address of the seed it last held (as a real caller's variable does) - code that compares addresses with stale
+ * pointers is only exercised this way.  Default: every block gets a fresh mapping and is unmapped when freed. */
+static bool g_reuse = false;
+static guard g_free_g[64]; static size_t g_free_sz[64]; static int g_nfree = 0;
+
 static void* ledger_alloc(int fid, size_t n) {
     if (g_fail_in == 0) {
         g_fail_in = -1;
@@ -113,7 +119,15 @@ static void* ledger_alloc(int fid, size_t n) {
     int id = ++g_nblocks;
     block* b = &g_blocks[id];
     size_t rounded = (n + 15) & ~(size_t)15;
-    b->g = galloc(rounded, 0xA5);
+    int hit = -1;
+    if (g_reuse) for (int i = g_nfree - 1; i >= 0; --i) if (g_free_sz[i] == rounded) { hit = i; break; }
+    if (hit >= 0) {
+        b->g = g_free_g[hit];
+        for (int i = hit; i + 1 < g_nfree; ++i) { g_free_g[i] = g_free_g[i + 1]; g_free_sz[i] = g_free_sz[i + 1]; }
+        g_nfree--;
+        memset(b->g.ptr, 0xA5, rounded);
+    }
+    else b->g = galloc(rounded, 0xA5);
     b->ptr = b->g.ptr;
     b->size = n;
     b->live = true;
@@ -133,7 +147,8 @@ static void ledger_free(int fid, void* p) {
     for (size_t i = 0; i < b->size; ++i) if (((unsigned char*)b->ptr)[i]) zeroed = false;
     printf("E free f=%d b%d zeroed=%d\n", fid, id, zeroed ? 1 : 0);
     b->live = false;
-    gfree(b->g);
+    if (g_reuse && g_nfree < 64) { g_free_g[g_nfree] = b->g; g_free_sz[g_nfree] = (b->size + 15) & ~(size_t)15; g_nfree++; }
+    else gfree(b->g);
 }
 
 /* ---------- scripted oracles ---------- */
@@ -252,6 +267,8 @@ static void* pick(int id, int which) {
 
 /* ---------- seeds ---------- */
 static polyseed_data* g_slot[NSLOTS];
+static polyseed_data* g_stale[NSLOTS];   /* what the caller's variable of this slot last held (reuse mode) */
+#define SEED_VAR_INIT(k) ((g_reuse && g_stale[k]) ? g_stale[k] : (polyseed_data*)(uintptr_t)0x5EED)
 
 static int seed_id(polyseed_data* s) { return block_of(s); }
 
@@ -340,6 +357,7 @@ int main(int argc, char** argv) {
         if (!strcmp(op, "!failalloc")) { g_fail_in = (int)NUM(1); continue; }
         if (!strcmp(op, "!kdfkey")) { g_kdfkey = NUM(1); continue; }
         if (!strcmp(op, "!prng")) { g_prng = NUM(1); continue; }
+        if (!strcmp(op, "!reuse")) { g_reuse = NUM(1) != 0; continue; }
         if (!strcmp(op, "!watch")) {
             if (g_nwatch < MAXWATCH) {
                 g_watch[g_nwatch].p = (unsigned char*)(uintptr_t)strtoull(ARG(1), NULL, 16);
@@ -385,9 +403,9 @@ int main(int argc, char** argv) {
             int k = SLOT(1); unsigned f = (unsigned)NUM(2);
             if (g_slot[k]) { printf("> skip\n"); continue; }
             printf("> create %u\n", f);
-            polyseed_data* s = (polyseed_data*)(uintptr_t)0x5EED;
+            polyseed_data* s = SEED_VAR_INIT(k);
             g_in_lib = true; polyseed_status st = polyseed_create(f, &s); g_in_lib = false;
-            if (st == POLYSEED_OK) g_slot[k] = s;
+            if (st == POLYSEED_OK) { g_slot[k] = s; g_stale[k] = s; }
             /* *seed_out is documented as undefined after an error: a value written there is not judged (a block left behind shows in the ledger) */
             printf("< st=%d seed=", (int)st); print_seed_ref(st == POLYSEED_OK ? s : NULL); printf("\n");
         }
@@ -451,7 +469,7 @@ int main(int argc, char** argv) {
             if (ex) printf("> decodex %u %d ", coin, li); else printf("> %s %u ", nolang ? "decoden" : "decode", coin);
             puthex(hbuf, n); printf("\n");
             guard g = gstr(hbuf, n);
-            polyseed_data* s = (polyseed_data*)(uintptr_t)0x5EED;
+            polyseed_data* s = SEED_VAR_INIT(k);
             const polyseed_lang* lo = (const polyseed_lang*)(uintptr_t)0x1A46;
             polyseed_status st;
             g_in_lib = true;
@@ -459,7 +477,7 @@ int main(int argc, char** argv) {
             else st = polyseed_decode((char*)g.ptr, (polyseed_coin)coin, nolang ? NULL : &lo, &s);
             g_in_lib = false;
             if (memcmp(g.ptr, hbuf, n) || g.ptr[n] != 0) printf("! decode modified its input\n");
-            if (st == POLYSEED_OK) g_slot[k] = s;
+            if (st == POLYSEED_OK) { g_slot[k] = s; g_stale[k] = s; }
             /* *seed_out is documented as undefined after an error: a value written there is not judged (a block left behind shows in the ledger) */
             printf("< st=%d seed=", (int)st); print_seed_ref(st == POLYSEED_OK ? s : NULL);
             if (lo == (const polyseed_lang*)(uintptr_t)0x1A46) printf(" lang=-\n");
@@ -485,10 +503,10 @@ int main(int argc, char** argv) {
             printf("> load "); puthex(hbuf, n); printf("\n");
             guard g = galloc(POLYSEED_SIZE, 0);
             memcpy(g.ptr, hbuf, n);
-            polyseed_data* s = (polyseed_data*)(uintptr_t)0x5EED;
+            polyseed_data* s = SEED_VAR_INIT(k);
             g_in_lib = true; polyseed_status st = polyseed_load(g.ptr, &s); g_in_lib = false;
             if (memcmp(g.ptr, hbuf, n)) printf("! load modified its input\n");
-            if (st == POLYSEED_OK) g_slot[k] = s;
+            if (st == POLYSEED_OK) { g_slot[k] = s; g_stale[k] = s; }
             /* *seed_out is documented as undefined after an error: a value written there is not judged (a block left behind shows in the ledger) */
             printf("< st=%d seed=", (int)st); print_seed_ref(st == POLYSEED_OK ? s : NULL); printf("\n");
             gfree(g);
